@@ -175,6 +175,7 @@ META["C25"] = E("exhaustive + sampled round-trip oracle over the real origin enc
     "Sequences longer than 40 edges and ingredient/index values between the boundary classes are only sampled.",
     "native loop + Miri")
 HOOK_COMMITS.append("cb42a1b")
+HOOK_COMMITS.append("a08fdfb")
 
 META["C26"] = E("differential oracle across a serde_json round trip: values vs reference interpreter, executions vs memo validity",
     "Exploration: ~6*10^4 (quick) to 3*10^6 (thorough) seeded (program, history, cut point) cases in the persistence build: serialize after an "
